@@ -6,9 +6,16 @@ package verifharness
 import (
 	"crypto/tls"
 	"fmt"
+	"github.com/basecamp/kamal-proxy/internal/server"
 	"math/rand/v2"
+	"net/http"
+	"net/http/httptest"
+	"os"
+	"path/filepath"
 	"sort"
 	"strings"
+	"sync"
+	"sync/atomic"
 	"testing"
 	"testing/synctest"
 	"time"
@@ -96,6 +103,103 @@ func TestC16(t *testing.T) {
 		}
 		synctest.Test(t, func(t *testing.T) { c16Run(t, run, sc, run.Rand(i+1<<30)) })
 	}
+	if desc := map[string]any{"kind": "sub-path-service-under-load-while-other-services-come-and-go"}; run.Mine(n+9000, desc) {
+		c16Load(t, run, desc)
+	}
+}
+
+// c16Load: "a service with TLS and redirect enabled never forwards a plain-HTTP request", for a
+// sub-path service that follows its root, *while* the routing table is being rebuilt: real time,
+// eight clients send plain-HTTP requests to the sub-path service without rest (router called
+// in-process) while six operators deploy and remove services on other hosts. Every answer is the
+// 301 to the same host, path and query under https; the sub-path target never sees a request.
+func c16Load(t *testing.T, run *Run, desc any) {
+	run.Eval()
+	RestoreHTTPDefaults()
+	dir, err := os.MkdirTemp("", "vh-c16-")
+	if err != nil {
+		run.Inconclusive("tempdir: %v", err)
+		return
+	}
+	defer os.RemoveAll(dir)
+	var atAPI atomic.Int64
+	mk := func(count bool) *httptest.Server {
+		return httptest.NewServer(http.HandlerFunc(func(w http.ResponseWriter, r *http.Request) {
+			if count && r.URL.Path != "/up" {
+				atAPI.Add(1)
+			}
+			w.Write([]byte("ok"))
+		}))
+	}
+	root, api, other := mk(false), mk(true), mk(false)
+	defer root.Close()
+	defer api.Close()
+	defer other.Close()
+	router := server.NewRouter(filepath.Join(dir, "state.json"))
+	to := server.TargetOptions{HealthCheckConfig: server.HealthCheckConfig{Path: "/up", Interval: time.Second, Timeout: 5 * time.Second}, ResponseTimeout: 10 * time.Second}
+	addr := func(s *httptest.Server) string { return strings.TrimPrefix(s.URL, "http://") }
+	fix := Fixtures()
+	rootSO := server.ServiceOptions{Hosts: []string{"load.example"}, TLSEnabled: true, TLSRedirect: true, TLSCertificatePath: fix + "/cert.pem", TLSPrivateKeyPath: fix + "/key.pem"}
+	if err := router.DeployService("root", []string{addr(root)}, rootSO, to, 10*time.Second, 5*time.Second); err != nil {
+		run.Inconclusive("deploy root: %v", err)
+		return
+	}
+	if err := router.DeployService("api", []string{addr(api)}, server.ServiceOptions{Hosts: []string{"load.example"}, PathPrefixes: []string{"/api"}}, to, 10*time.Second, 5*time.Second); err != nil {
+		run.Inconclusive("deploy api: %v", err)
+		return
+	}
+	var stop atomic.Bool
+	var total, updates atomic.Int64
+	var firstBad atomic.Value
+	var wg sync.WaitGroup
+	for c := 0; c < 8; c++ {
+		wg.Add(1)
+		go func() {
+			defer wg.Done()
+			for k := 0; !stop.Load(); k++ {
+				rec := httptest.NewRecorder()
+				router.ServeHTTP(rec, httptest.NewRequest("GET", fmt.Sprintf("http://load.example:8080/api/items?c=%d&k=%d", c, k), nil))
+				total.Add(1)
+				want := fmt.Sprintf("https://load.example/api/items?c=%d&k=%d", c, k)
+				if rec.Code != 301 || rec.Header().Get("Location") != want {
+					firstBad.CompareAndSwap(nil, fmt.Sprintf("status %d Location %q body %q (expected 301 to %s)", rec.Code, rec.Header().Get("Location"), trunc(rec.Body.String(), 40), want))
+				}
+			}
+		}()
+	}
+	for o := 0; o < 6; o++ {
+		wg.Add(1)
+		go func() {
+			defer wg.Done()
+			name := fmt.Sprintf("other%d", o)
+			for !stop.Load() {
+				if err := router.DeployService(name, []string{addr(other)}, server.ServiceOptions{Hosts: []string{name + ".example"}}, to, 10*time.Second, time.Second); err == nil {
+					router.RemoveService(name)
+					updates.Add(2)
+				}
+			}
+		}()
+	}
+	time.Sleep(4 * time.Second)
+	stop.Store(true)
+	wg.Wait()
+	router.RemoveService("api")
+	router.RemoveService("root")
+	run.Count("load_requests", int(total.Load()))
+	run.Count("load_table_updates", int(updates.Load()))
+	if bad := firstBad.Load(); bad != nil {
+		run.Violate("plain-http-not-redirected:under-load", fmt.Sprintf("a plain-HTTP request to a sub-path service whose root service has TLS and redirect on was not answered by the redirect while services on other hosts were being deployed and removed (%d requests, %d table updates): %v", total.Load(), updates.Load(), bad), desc, nil)
+		return
+	}
+	if n := atAPI.Load(); n > 0 {
+		run.Violate("plain-http-forwarded:under-load", fmt.Sprintf("%d plain-HTTP requests reached the target of the sub-path service", n), desc, nil)
+		return
+	}
+	if total.Load() < 5000 || updates.Load() < 100 {
+		run.Inconclusive("load scenario too small to mean anything: %d requests, %d table updates", total.Load(), updates.Load())
+		return
+	}
+	run.Class("load|sub-path-redirect")
 }
 
 func c16Run(t *testing.T, run *Run, sc c16Scenario, rng *rand.Rand) {
